@@ -33,7 +33,8 @@ class Env(object):
         self.shape_name = shape
         shp = SHAPES[shape]
         self.d = Data(label='d', f=fvals(shp, dver), i=ivals(shp, dver), c=cvals(shp, 0),
-                      g2=np.arange(1, int(np.prod(shp)) + 1, dtype=float).reshape(shp) ** 2)
+                      g2=np.arange(1, int(np.prod(shp)) + 1, dtype=float).reshape(shp) ** 2,
+                      k=np.full(shp, 2.0 + dver))      # constant: sampled statistics of it do not depend on the random draw
         self.o = Data(label='o', x=np.arange(6, dtype=float).reshape(SHAPES['s1']))
         self.dc = DataCollection([self.d, self.o]) if incoll else None
         self.link = None
@@ -219,6 +220,10 @@ def evaluate(env, state, subset, kind):
     if kind == 'stat':
         return np.asarray([d.compute_statistic('sum', d.id['f'], subset_state=state),
                            d.compute_statistic('maximum', d.id['i'], subset_state=state)], dtype=float)
+    if kind == 'statsample':
+        # statistics and a histogram of a random sample (4 of 6 elements) of the constant attribute: deterministic
+        return np.asarray([d.compute_statistic('sum', d.id['k'], random_subset=4), d.compute_statistic('maximum', d.id['k'], random_subset=4)] +
+                          list(np.asarray(d.compute_histogram([d.id['k']], range=[(0.0, 10.0)], bins=[2], random_subset=4), dtype=float)), dtype=float)
     if kind == 'hist':
         return np.asarray(d.compute_histogram([d.id['f']], range=[(-2.0, 6.0)], bins=[4], subset_state=state), dtype=float)
     if kind == 'layerhist':
@@ -288,14 +293,15 @@ def replay_one(beh):
                                 'tree %s kinds %r attached %s' % (tree, kinds, subset is not None))
                 elif op == 'UpdateComponents':
                     d = env.d
-                    d.update_components({d.id['f']: fvals(d.shape, st['dver']), d.id['i']: ivals(d.shape, st['dver'])})
+                    d.update_components({d.id['f']: fvals(d.shape, st['dver']), d.id['i']: ivals(d.shape, st['dver']),
+                                         d.id['k']: np.full(d.shape, 2.0 + st['dver'])})
                     comp = d.get_component(d.id['c'])
                     # the categorical column follows through the documented refresh path below only
                 elif op == 'UpdateFromData':
                     from glue.core import Data
                     shp = SHAPES[st['shape']]
                     other = Data(label='d', f=fvals(shp, st['dver']), i=ivals(shp, st['dver']), c=cvals(shp, 0),
-                                 g2=np.arange(1, int(np.prod(shp)) + 1, dtype=float).reshape(shp) ** 2)
+                                 g2=np.arange(1, int(np.prod(shp)) + 1, dtype=float).reshape(shp) ** 2, k=np.full(shp, 2.0 + st['dver']))
                     env.d.update_values_from_data(other)
                 elif op == 'MutateLeaf':
                     slot = a['a']
